@@ -28,6 +28,7 @@ def showOut : Out → String
   | .result r e s d sd => s!"result {showOpt r} {e} {showAddr s} {showAddr d} d{showOpt sd}"
   | .readReq f s d => s!"readReq {f} {showAddr s} {showAddr d}"
   | .notify f s d v => s!"notify {f} {showAddr s} {showAddr d} v{v}"
+  | .subReq => "other:call"
   | .panic => "panic"
 
 def showOuts (outs : List (Nat × Out)) : String :=
@@ -68,6 +69,8 @@ def parseOp (toks : List String) : Option Op :=
   | "bind" :: p :: c :: s :: typ :: ctr :: ack :: _ => some (.call p.toNat! ctr.toNat! (ack == "1") (.bind (parseAddr c) (parseAddr s) typ.toNat!))
   | "unbind" :: p :: c :: s :: ctr :: ack :: _ => some (.call p.toNat! ctr.toNat! (ack == "1") (.unbind (parseAddr c) (parseAddr s)))
   | "sub" :: p :: c :: s :: typ :: ctr :: ack :: _ => some (.call p.toNat! ctr.toNat! (ack == "1") (.sub (parseAddr c) (parseAddr s) typ.toNat!))
+  | "unsub" :: p :: c :: s :: ctr :: ack :: _ => some (.call p.toNat! ctr.toNat! (ack == "1") (.unsub (parseAddr c) (parseAddr s)))
+  | "reann" :: p :: ctr :: ref :: ack :: _ => some (.reann p.toNat! ctr.toNat! (if ref == "-" then none else ref.toNat?) (ack == "1"))
   | "entrem" :: p :: e :: ctr :: ack :: _ => some (.entRem p.toNat! (parseEnt e) ctr.toNat! (ack == "1"))
   | "entadd" :: p :: e :: ctr :: ack :: _ => some (.entAdd p.toNat! (parseEnt e) ctr.toNat! (ack == "1"))
   | ["drop", p] => some (.drop p.toNat!)
